@@ -82,6 +82,7 @@ def solve_path(rep, prog):
     mem = prog.find_member(mm, cls, '__post_init__')
     fn = mem[1]; site = prog.site(mem[0], fn)
     ev = new_ev(prog); ev.opaque_fns |= {(NA, 'nodal_analysis_coefficient_matrix'), (NA, 'nodal_analysis_constants_vector')}
+    ev.self_class = (mm, cls)          # private helper methods of the class are followed
     ev.call_fn(fn, mem[0], [A('self')], {}, {'__parent__': None}, 1)
     sv = ev.stores.get(('self', '_solution_vector'))
     env = {'self': A('self')}
@@ -100,6 +101,8 @@ def solve_path(rep, prog):
     # fallback discipline, checked in the function that holds the call of the solver (the method itself or a helper it delegates to)
     holders = []
     cands = [(mem[0], fn)] + [(prog.mod(ms), prog.mod(ms).defs.get(nm)) for ms, nm in ev.calls if isinstance(prog.mod(ms).defs.get(nm), ast.FunctionDef)]
+    for cm_, cc_ in prog.mro(mm, cls):          # ... or a private method of the class
+        cands += [(cm_, n) for n in cc_.body if isinstance(n, ast.FunctionDef) and n is not fn and n.name.startswith('_') and not n.name.startswith('__')]
     for cm, cf in cands:
         if any(isinstance(n, ast.Call) and ast.unparse(n.func).split('.')[-1] == 'solve' for n in ast.walk(cf)): holders.append((cm, cf))
     if not holders:
